@@ -100,6 +100,23 @@ def systematic(flat_docs):
             for f in ["starts-with", "contains", "substring-before", "substring-after", "concat"]:
                 out.append(fn(f, s, s2))
         out.append(fn("translate", s, lit("abt-"), lit("AB")))
+    # white space inside strings (4.2: #x20 #x9 #xD #xA), one irregularity at a time
+    for ws in ["a\tb", "a\nb", "a\rb", "\ta b", "a b\n", "a \tb", "a\t\tb", "\t", "a\u00a0b"]:
+        out.append(fn("normalize-space", lit(ws)))
+        out.append(fn("string-length", fn("normalize-space", lit(ws))))
+        out.append(fn("number", lit(ws.replace("a", "1").replace("b", "2"))))
+    # string functions given non-string arguments (the result type is a string / boolean / number whatever the argument types)
+    mixed = [num(1), num8(12), fn("true"), fn("false"), path([step("child", t_name("b"))]), path([step("child", t_name("zz"))]), lit(""), lit("1"),
+             bin_("div", num(0), num(0)), neg(num(0))]
+    for a1 in mixed:
+        for a2 in mixed:
+            for f in ["substring-before", "substring-after", "starts-with", "contains", "concat"]:
+                out.append(fn(f, a1, a2))
+        for f in ["string-length", "normalize-space", "string"]:
+            out.append(fn(f, a1))
+        out.append(fn("translate", a1, lit("1t"), lit("2")))
+        out.append(fn("substring", a1, num(1)))
+        out.append(fn("substring", lit("12345"), a1, a1))
     for n1 in N:
         for f in ["floor", "ceiling", "round", "string", "boolean", "number"]:
             out.append(fn(f, n1))
